@@ -11,7 +11,7 @@ import traceback
 from typing import Any, Dict, List, Optional
 
 from . import env
-from .harness import Ctx, make_classes
+from .harness import cloned, Ctx, make_classes
 from .monitor import Monitor
 
 import numpy as _np  # noqa: E402
@@ -357,6 +357,7 @@ class ExplorerRunner(SequentialRunner):
         else:
             o = Order(agent_id=agent.agent_id, market_id=market.market_id, is_buy=is_buy, kind=MARKET_ORDER,
                       volume=int(op["vol"]), ttl=ttl)
+        o = cloned(o, op.get("typ"))
         agent.mine.append(o)
         sim._trigger_event_before_order(order=o)
         log = market._add_order(order=o)
